@@ -549,7 +549,7 @@ pub mod model {
         loop {
             let (p, k, st, pp, is_matched, spawned) = {
                 let c = CTL.lock().unwrap();
-                let eff = limit.min(c.n).min(c.cut.unwrap_or(usize::MAX)).min(c.unclaimed_from);
+                let eff = limit.min(c.n).min(c.cut.unwrap_or(c.unclaimed_from));
                 if c.next_pos >= eff {
                     break;
                 }
